@@ -129,30 +129,47 @@ STRUCT = 'clause-level static check; decides the named structural clauses, which
 def check_C01(F, tier, t0):
     R = Report('C01')
     E = make_engine(F)
-    guarded(R, 'S eval_recursive', run_S, R, E, [EVF])
+    guarded(R, 'S eval_recursive', run_S, R, E, [EVF, RVF])
+    # the operations the evaluator dispatches to (their own properties C03-C06 run the same engine; evaluation is only right if all hold)
+    guarded(R, 'S operations', run_S, R, E, spec_bdd.BDD_SCOPE['C03'] + spec_bdd.BDD_SCOPE['C04'] + spec_bdd.BDD_SCOPE['C05'] + ['fp'])
     guarded(R, 'T tokens', engine_t.rule_tokens, F, R, 'all')
     guarded(R, 'T operators', engine_t.rule_operator_tables, F, R)
-    R.floor('functions', 1); R.floor('worlds', 25); R.floor('T:symbol-spellings', 20); R.floor('T:keyword-spellings', 23)
+    R.floor('functions', 28); R.floor('worlds', 80); R.floor('T:symbol-spellings', 20); R.floor('T:keyword-spellings', 23)
     R.floor('T:binary-operator-rows', 8); R.floor('T:counting-operator-rows', 5); R.floor('T:fixed-point-rows', 2)
     return finish(R, 'other', tier, t0,
         'Decides the dispatch chain spelling -> token -> operator -> BDDEnv operation -> truth function for every construct: the symbol/keyword tables of tokenize and the '
         'operator tables of the parser are extracted from constant matches and compared with the documented table; eval_recursive is checked arm by arm (engine S, all 11 '
         'in-scope syntax-node kinds and every operator value) to return the documented function of the values of its children, argument order included; no lossy integer '
-        'conversion lies between a parsed constant and the bound handed to the counting operations. The semantic content of the operations themselves is C03/C04/C05/C06, '
-        'the tree the parser builds is C08. Not decided: regex-engine matching of arbitrary text, fixed-point convergence, {reference} nodes.',
+        'conversion lies between a parsed constant and the bound handed to the counting operations. The operations the evaluator dispatches to (connectives, quantifiers, '
+        'counting, fp, replace_var) are re-proved here with the obligations of C03-C06, because evaluation is right only if every link is; the tree the parser builds is C08. Not decided: regex-engine matching of arbitrary text, fixed-point convergence, {reference} nodes.',
         TRUSTED, ['README operator table and property statement are the oracle for the reference tables'], './check C01')
 
 def check_C02(F, tier, t0):
     R = Report('C02')
     E = make_engine(F)
-    fns = ['clean', 'and', 'or', 'not', 'var', 'exists_impl', 'retain_choice_bottom_up']
-    res = guarded(R, 'S/O node-building functions', run_S, R, E, fns + ['simplify', 'mk_choice', 'mk_const', 'find', 'new']) or {}
+    # scope: EVERY non-test function of the workspace that calls mk_choice (computed, not listed) + the node-construction layer
+    MK = spec_bdd.B + 'mk_choice'
+    callers = set()
+    for c in F.crates:
+        if c.kind == 'test': continue
+        for name, t in c.thir.items():
+            if any(e['k'] == 'Call' and callee_name(e) == MK for e in walk(t['body'])):
+                callers.add(name.split('::{closure')[0])
+    fns = []
+    for name in sorted(callers):
+        if name.startswith(spec_bdd.B) and name in E.specs and E.specs[name].post is not None:
+            fns.append(name.split('::')[-1])
+        else:
+            R.obligation(False, 'O scope ' + name)
+            R.violation('%s / O / mk_choice without an order proof' % name, 'O',
+                        '%s builds decision nodes with mk_choice but has no specification against which the order obligation can be discharged' % name)
+    res = guarded(R, 'S/O node-building functions', run_S, R, E, fns + [f for f in ['simplify', 'mk_choice', 'mk_const', 'find', 'new'] if f not in fns]) or {}
     R.count('mk_choice-call-sites', static_mk_choice_sites(F.lib(), [n.split('::')[-1] for n in F.lib().thir if n.startswith(spec_bdd.B) and '{closure' not in n]))
     guarded(R, 'E1', engine_e.rule_E1, F, R)
     guarded(R, 'E5', engine_e.rule_E5_events, R, res)
     guarded(R, 'H', engine_e.rule_H, F, R)
     # functions that do not call mk_choice must not build nodes any other way: covered by E1 (constructor sites) workspace-wide
-    R.floor('mk_choice-call-sites', 13); R.floor('E1:Choice-constructor-sites', 2); R.floor('functions', 12); R.floor('H:impl-bodies', 4)
+    R.floor('mk_choice-call-sites', 13); R.floor('E1:Choice-constructor-sites', 2); R.floor('functions', 12); R.floor('H:impl-bodies', 4); R.floor('mk_choice-sites-x-worlds', 20)
     return finish(R, 'other', tier, t0,
         'Inductive invariant "every diagram handed out is ordered and reduced", decided as its code-dependent premises: (O) every one of the mk_choice call sites is '
         'order-respecting under every total pre-order of the symbols consistent with the guards of its path (engine S/O worlds); (R) all nodes are born in mk_choice, '
@@ -201,23 +218,23 @@ def check_C06(F, tier, t0):
         n = 0
         for (I, params, r, obls) in res:
             v = spec_parser.variant_of(I, params[1].term)
-            if v not in ('FixedPoint', 'Subtree'): continue
+            if v not in ('FixedPoint', 'Subtree', 'Quantifier'): continue
             for o in obls:
                 n += 1
                 R.obligation(o.ok, '%s | %s | %s' % (EVF, short_label(o.label), o.world))
                 if not o.ok:
                     R.violation('%s / %s / world[%s]' % (EVF, short_label(o.label), o.world), short_label(o.label).split(':')[0], '%s fails in abstract world [%s]' % (o.label, o.world), o.loc, o.detail)
         R.count('evaluator-fixed-point-obligations', n)
-    guarded(R, 'S eval_recursive (FixedPoint / Subtree arms)', fixarm)
+    guarded(R, 'S eval_recursive (FixedPoint / Subtree / Quantifier arms)', fixarm)
     guarded(R, 'T fixed point', engine_t.rule_operator_tables, F, R, ('fixpoint',))
     guarded(R, 'T tokens', engine_t.rule_tokens, F, R, {'GFP', 'LFP'})
     guarded(R, 'A3', engine_a.rule_A3, F, R)
-    R.floor('functions', 2); R.floor('evaluator-fixed-point-obligations', 4); R.floor('T:fixed-point-rows', 2)
+    R.floor('functions', 2); R.floor('evaluator-fixed-point-obligations', 7); R.floor('T:fixed-point-rows', 2)
     return finish(R, 'other', tier, t0,
         'Decides the code-dependent premises of Kleene iteration: (a) fp\'s loop, by one symbolic iteration from an arbitrary state: the state starts as the argument, the '
         'loop exits only when t(s) is structurally s, otherwise the next state is t(s), and the value returned is the state t maps to itself; (b) gfp/nu start from true, '
-        'lfp/mu from false (token table, parser dispatch, constructor provenance, evaluator); (c) the evaluator\'s transformer is y -> eval(body[X := Subtree(y)]) and Subtree '
-        'evaluates to the stored diagram; (d) replace_var is the capture-free homomorphic substitution on all in-scope constructors, stopping under a quantifier list '
+        'lfp/mu from false (token table, parser dispatch, constructor provenance, evaluator); (c) the evaluator\'s transformer is y -> eval(body[X := Subtree(y)]), Subtree '
+        'evaluates to the stored diagram, and a quantifier inside the body quantifies its whole list over the evaluated body (so it also ranges over the current iterate); (d) replace_var is the capture-free homomorphic substitution on all in-scope constructors, stopping under a quantifier list '
         'containing the name or an inner fixed point on the same name. Not decided: least/greatest-ness and termination, which follow from Knaster-Tarski/Kleene on the '
         'finite lattice given monotonicity and C02 - mathematics with no code content left once (a)-(d) hold.',
         TRUSTED, ['monotone bodies (property precondition); Kleene fixed-point theorem on a finite lattice'], './check C06')
@@ -335,6 +352,9 @@ def check_C12(F, tier, t0):
                 R.sample({'site': s.key, 'loc': s.loc, 'discharged by': reason})
             else:
                 R.violation(s.key, 'P', 'panic-capable site (%s) reachable from the parser / evaluator / CLI is not discharged by any rule' % s.what, s.loc)
+        if tier == 'thorough':
+            import clippy_xref
+            clippy_xref.cross_reference(F, R, reach, sites, framework.REPO)
     # X3 / X6 are used as discharge rules R5 / R12; evaluate them into a scratch report
     scratch = Report('scratch')
     guarded(scratch, 'X3', engine_x.rule_X3, F, scratch)
@@ -397,13 +417,18 @@ def check_C14(F, tier, t0):
 
 def check_C15(F, tier, t0):
     R = Report('C15')
+    import engine_n
     guarded(R, 'L-W', engine_l.rule_width, F, R, 'n_queens_gen')
-    R.floor('L-W:arithmetic-sites', 12); R.floor('L-W:ranges', 8)
-    return finish(R, 'other', tier, t0,
-        'One thin necessary clause only: no cell-index arithmetic and no loop range of n_queens_gen is carried out in an integer type narrower than 32 bits (indices reach '
-        'n*n-1). NOT decided - and not claimed: that the six loops enumerate exactly the rows, columns and diagonals for every n; that is quadratic index arithmetic over '
-        'all n, for which no sound static rule is in reach here.',
-        TRUSTED, [], './check C15')
+    guarded(R, 'N', engine_n.rule_queens, F, R)
+    R.floor('L-W:arithmetic-sites', 12); R.floor('L-W:ranges', 8); R.floor('N:loop-nests', 6); R.floor('N:proved-lines', 6); R.floor('N:families', 4)
+    return finish(R, 'proof', tier, t0,
+        'Affine loop-nest analysis, symbolic in n (nothing is instantiated): each of the constraint loops is read from THIR as `for i in a..b { [ for j in c..d { v_E(i,j,n), } ] OP 1 }`; '
+        'the index polynomial E is decomposed as row*n + col with 0 <= row, col < n proved from the loop bounds by Fourier-Motzkin elimination; every list is shown to be a whole '
+        'line of the board (row, column, diagonal col-row constant, anti-diagonal row+col constant; the cells just outside the j-range are off the board), rows and columns carry '
+        '`= 1`, diagonals `<= 1`, and the line identifiers of the families cover every row, column, diagonal and anti-diagonal for all n >= 1. That is the standard characterisation of '
+        'n mutually non-attacking queens over variables v_(row*n+col). Plus: no index arithmetic in an integer narrower than 32 bits. Not decided: well-formedness of the emitted '
+        'text as a whole (trailing commas are C08), overflow of n*n beyond usize.',
+        TRUSTED + ['n-queens = exactly one queen per row and per column and at most one per diagonal and anti-diagonal'], ['n >= 1; n*n fits in usize'], './check C15')
 
 def check_C16(F, tier, t0):
     R = Report('C16')
